@@ -42,6 +42,7 @@ type Sample struct {
 	Steps   int      `json:"steps"`
 	Preempt int      `json:"preemptions"`
 	Trace   []string `json:"trace"`
+	LogHash uint64   `json:"log_hash"`
 }
 
 // WorkerOut is the worker's report.
@@ -185,10 +186,10 @@ func search(t *testing.T, def *Def, job *Job, out *WorkerOut) {
 		}
 		if keep && (res.Preemptions > 0 || i == job.Start) {
 			tr := res.Trace
-			if len(tr) > 60 {
+			if len(tr) > 60 && os.Getenv("VERIF_FULLTRACE") == "" {
 				tr = append(tr[:60:60], "...")
 			}
-			out.Samples = append(out.Samples, Sample{Seed: seed, Steps: res.Steps, Preempt: res.Preemptions, Trace: tr})
+			out.Samples = append(out.Samples, Sample{Seed: seed, Steps: res.Steps, Preempt: res.Preemptions, Trace: tr, LogHash: res.LogHash})
 		}
 		if len(res.Violations) > 0 && len(out.Failures) < maxFail {
 			v := res.Violations[0]
